@@ -20,46 +20,44 @@ perform one step.  `xsi_cache` is a reference into a heap of dict objects. -/
 /-- **build_race_benign**: for every set of threads (none of which calls
 `reset()` or scans by fields) and *every* schedule, a thread that has finished
 `build(c, p)` got exactly the metadata it gets when run alone on a fresh context
-— provided no namespace-less class is requested under two parent namespaces
-(the sequential defect C14-F1).  The check-then-insert race on `cache` can build
-a class twice but never publishes different or partial metadata, and
-`cache[clazz]` never raises `KeyError`.  (With scans: `concurrent_safe_with_scans`.) -/
+— also when the same namespace-less class is requested under different parent
+namespaces by different threads (the cache is keyed by `(class, parent_ns)`).
+The check-then-insert race on `cache` can build a class twice but never
+publishes different or partial metadata, and `cache[key]` never raises
+`KeyError`.  (With scans: `concurrent_safe_with_scans`.) -/
 theorem build_race_benign (U : Universe) (w : World) (progs : List Prog) (schedule : List Nat)
-    (hnr : noReset progs) (hns : noScan progs) (hc : consistent U (progUses progs)) :
+    (hnr : noReset progs) (hns : noScan progs) :
     ∀ th ∈ (runSched U w (Sys.start State.init progs) schedule).threads,
       ∀ c p o, th.prog = .build c p → th.st = .done o → o = Prog.alone U w (.build c p) := by
   intro th hth c p o hp hs
-  have hI := runSched_inv hc w schedule _
-    (SysInv.start U progs hnr hns State.init (by intro c m h; simp [State.init] at h))
+  have hI := runSched_inv w schedule _
+    (SysInv.start U progs hnr hns State.init (by intro c p m h; simp [State.init] at h))
   have := hI.threads th hth
   unfold ThreadOK at this
   rw [hp] at this
-  have h2 := this.2
-  rw [hs] at h2
-  exact h2
+  rw [hs] at this
+  exact this
 
 /-- the same on a context that already holds metadata, e.g. one that served
 earlier (admissible) calls: only the cache invariant is needed -/
 theorem build_race_benign_warm_cache (U : Universe) (w : World) (progs : List Prog)
     (schedule : List Nat) (s0 : State) (hnr : noReset progs) (hns : noScan progs)
-    (hc : consistent U (progUses progs))
-    (h0 : ∀ c m, s0.cache.lookup c = some m → ∃ p, (c, p) ∈ progUses progs ∧ pureBuild U c p = .ok m) :
+    (h0 : ∀ c p m, s0.cache.lookup (c, p) = some m → pureBuild U c p = .ok m) :
     ∀ th ∈ (runSched U w (Sys.start s0 progs) schedule).threads,
       ∀ c p o, th.prog = .build c p → th.st = .done o → o = Prog.alone U w (.build c p) := by
   intro th hth c p o hp hs
-  have hI := runSched_inv hc w schedule _ (SysInv.start U progs hnr hns s0 h0)
+  have hI := runSched_inv w schedule _ (SysInv.start U progs hnr hns s0 h0)
   have := hI.threads th hth
   unfold ThreadOK at this
   rw [hp] at this
-  have h2 := this.2
-  rw [hs] at h2
-  exact h2
+  rw [hs] at this
+  exact this
 
 /-- one class `PA` in namespace `urn:a` -/
 def oneU : Universe :=
   ⟨[ { name := "PA".toList, base := none, isModel := true, inPkg := true, ns := some (some "urn:a".toList),
        mname := none, targetNs := none, moduleNs := none, globalType := true, inner := false, bad := false,
-       fields := [⟨"x".toList, .element, none, none, none⟩] } ]⟩
+       fields := [⟨"x".toList, .element, none, none, none, none⟩] } ]⟩
 
 def w1 : World := ⟨1, 0⟩
 def qPA : Str := "{urn:a}PA".toList
@@ -67,8 +65,7 @@ abbrev findPA : Prog := .lookup .types qPA
 
 /-- the hypotheses of `build_race_benign` are satisfiable with racing threads -/
 example : noReset [.build 0 none, .build 0 none, findPA, .build 0 (some "urn:p".toList)] ∧
-    noScan [.build 0 none, .build 0 none, findPA, .build 0 (some "urn:p".toList)] ∧
-    consistent oneU (progUses [.build 0 none, .build 0 none, findPA, .build 0 (some "urn:p".toList)]) := by
+    noScan [.build 0 none, .build 0 none, findPA, .build 0 (some "urn:p".toList)] := by
   decide
 
 /-- **xsi_lookup_linearizable** — the full-strength statement for the type
@@ -123,25 +120,22 @@ of all kinds and by-fields scans in any number, **every schedule**, scheduling
 points between any two entries the scan visits: every finished call returns what
 it returns alone.  In particular the scan never dies with "dictionary changed
 size during iteration" and its step-by-step result equals the atomic one
-(`pureFields`).  Hypotheses (all decidable): no `reset()` thread; consistent
-parent namespaces, counting that a scan builds every indexed class with
-`parent_ns=None`; if anybody scans, every indexed class is buildable (otherwise
-the scan evicts, C14-F3); the start state's stamp is not lying and its cache is
-valid. -/
+(`pureFields`).  Hypotheses (all decidable): no `reset()` thread; if anybody
+scans, every indexed class is buildable (otherwise the scan evicts and lookups
+by name see it, C14-F3); the start state's stamp is not lying and its cache is
+valid.  No condition on parent namespaces is left. -/
 theorem concurrent_safe_with_scans (U : Universe) (w : World) (progs : List Prog)
     (schedule : List Nat) (s0 : State) (hnr : noReset progs) (hss : scanSafe U w progs)
-    (hc : consistent U (progUsesAll U w progs))
-    (hc0 : ∀ c m, s0.cache.lookup c = some m →
-      ∃ p, (c, p) ∈ progUsesAll U w progs ∧ pureBuild U c p = .ok m)
+    (hc0 : ∀ c p m, s0.cache.lookup (c, p) = some m → pureBuild U c p = .ok m)
     (h0 : s0.sysModules = w.mods + 1 → s0.xsi = pureIndex U w.loaded) :
     ∀ th ∈ (runSched U w (Sys.start s0 progs) schedule).threads,
       ∀ o, th.st = .done o → o = Prog.alone U w th.prog := by
   intro th hth o hs
-  have hI := (runSched_comb hc w schedule _ (CombInv.start U w progs hnr hss s0 hc0 h0)).1
+  have hI := (runSched_comb w schedule _ (CombInv.start U w progs hnr hss s0 hc0 h0)).1
   have := hI.threads th hth
   unfold ThreadAll at this
   cases hp : th.prog with
-  | build c p => rw [hp] at this; have h2 := this.2; rw [hs] at h2; exact h2
+  | build c p => rw [hp] at this; rw [hs] at this; exact this
   | lookup k q => rw [hp] at this; rw [hs] at this; exact this
   | scan names => rw [hp] at this; have h2 := this.2; rw [hs] at h2; exact h2
   | reset => rw [hp] at this; exact this.elim
@@ -149,12 +143,12 @@ theorem concurrent_safe_with_scans (U : Universe) (w : World) (progs : List Prog
 /-- **scan_linearizable**: the result of a concurrent `find_type_by_fields` equals
 the atomic one, for every schedule -/
 theorem scan_linearizable (U : Universe) (w : World) (progs : List Prog) (schedule : List Nat)
-    (hnr : noReset progs) (hss : scanSafe U w progs) (hc : consistent U (progUsesAll U w progs)) :
+    (hnr : noReset progs) (hss : scanSafe U w progs) :
     ∀ th ∈ (runSched U w (Sys.start State.init progs) schedule).threads,
       ∀ names o, th.prog = .scan names → th.st = .done o → o = .gotType (pureFields U w names) := by
   intro th hth names o hp hs
-  have := concurrent_safe_with_scans U w progs schedule State.init hnr hss hc
-    (by intro c m h; simp [State.init] at h) (by intro h; simp [State.init] at h) th hth o hs
+  have := concurrent_safe_with_scans U w progs schedule State.init hnr hss
+    (by intro c p m h; simp [State.init] at h) (by intro h; simp [State.init] at h) th hth o hs
   rw [hp] at this
   exact this
 
@@ -164,16 +158,14 @@ scan inserts a key into it, removes one or touches its lists; so an iterator
 over it can never observe a size change.  (`sched ++ more`: any continuation.) -/
 theorem lookups_preserve_index_keys (U : Universe) (w : World) (progs : List Prog)
     (sched more : List Nat) (s0 : State) (hnr : noReset progs) (hss : scanSafe U w progs)
-    (hc : consistent U (progUsesAll U w progs))
-    (hc0 : ∀ c m, s0.cache.lookup c = some m →
-      ∃ p, (c, p) ∈ progUsesAll U w progs ∧ pureBuild U c p = .ok m)
+    (hc0 : ∀ c p m, s0.cache.lookup (c, p) = some m → pureBuild U c p = .ok m)
     (h0 : s0.sysModules = w.mods + 1 → s0.xsi = pureIndex U w.loaded) (d : Nat)
     (hd : (runSched U w (Sys.start s0 progs) sched).shared.heap[d]? = some (pureIndex U w.loaded)) :
     (runSched U w (Sys.start s0 progs) (sched ++ more)).shared.heap[d]? = some (pureIndex U w.loaded) ∧
     ((runSched U w (Sys.start s0 progs) (sched ++ more)).shared.dict d).map (·.1)
       = (pureIndex U w.loaded).map (·.1) := by
-  have hI := (runSched_comb hc w sched _ (CombInv.start U w progs hnr hss s0 hc0 h0)).1
-  have h2 := (runSched_comb hc w more _ hI).2 d hd
+  have hI := (runSched_comb w sched _ (CombInv.start U w progs hnr hss s0 hc0 h0)).1
+  have h2 := (runSched_comb w more _ hI).2 d hd
   rw [runSched_append]
   exact ⟨h2, by rw [Full.dict h2]⟩
 
@@ -181,21 +173,20 @@ theorem lookups_preserve_index_keys (U : Universe) (w : World) (progs : List Pro
 any thread has finished a lookup or a scan, the published object is complete -/
 theorem published_index_complete (U : Universe) (w : World) (progs : List Prog)
     (schedule : List Nat) (hnr : noReset progs) (hss : scanSafe U w progs)
-    (hc : consistent U (progUsesAll U w progs))
     (hstamp : (runSched U w (Sys.start State.init progs) schedule).shared.sysModules = w.mods + 1) :
     (runSched U w (Sys.start State.init progs) schedule).shared.toState.xsi = pureIndex U w.loaded := by
-  have hI := (runSched_comb hc w schedule _ (CombInv.start U w progs hnr hss State.init
-    (by intro c m h; simp [State.init] at h) (by intro h; simp [State.init] at h))).1
+  have hI := (runSched_comb w schedule _ (CombInv.start U w progs hnr hss State.init
+    (by intro c p m h; simp [State.init] at h) (by intro h; simp [State.init] at h))).1
   exact Full.dict (hI.stamp hstamp)
 
 /-- three classes, three index entries; everything declared and buildable -/
 def scanU : Universe :=
   ⟨[ { name := "PA".toList, base := none, isModel := true, inPkg := true, ns := some (some "urn:a".toList),
        mname := none, targetNs := none, moduleNs := none, globalType := true, inner := false, bad := false,
-       fields := [⟨"x".toList, .element, none, none, none⟩] },
+       fields := [⟨"x".toList, .element, none, none, none, none⟩] },
      { name := "PB".toList, base := none, isModel := true, inPkg := true, ns := some (some "urn:b".toList),
        mname := none, targetNs := none, moduleNs := none, globalType := true, inner := false, bad := false,
-       fields := [⟨"x".toList, .element, none, none, none⟩, ⟨"y".toList, .element, none, none, none⟩] } ]⟩
+       fields := [⟨"x".toList, .element, none, none, none, none⟩, ⟨"y".toList, .element, none, none, none, none⟩] } ]⟩
 
 def w2 : World := ⟨2, 0⟩
 
@@ -204,7 +195,7 @@ def w2 : World := ⟨2, 0⟩
 example :
     let progs : List Prog := [.scan ["x".toList], .lookup .types "Nope".toList,
       .lookup .last "{urn:b}PB".toList, .lookup (.sub 0) "{urn:a}PA".toList, .build 1 none]
-    noReset progs ∧ scanSafe scanU w2 progs ∧ consistent scanU (progUsesAll scanU w2 progs) := by
+    noReset progs ∧ scanSafe scanU w2 progs := by
   decide
 
 /-- a scan interleaved with a missing lookup between every two visited entries
@@ -256,29 +247,36 @@ theorem reset_scan_counterexample : ¬ ConcurrentSafe oneU w1 (doBuildXsi oneU w
 def badU : Universe :=
   ⟨[ { name := "T".toList, base := none, isModel := true, inPkg := true, ns := some (some "urn:a".toList),
        mname := none, targetNs := none, moduleNs := none, globalType := true, inner := false, bad := true,
-       fields := [⟨"x".toList, .element, none, none, none⟩] } ]⟩
+       fields := [⟨"x".toList, .element, none, none, none, none⟩] } ]⟩
 
-/-- **also excluded (`scanSafe`), and false without it** (finding C19-F3): two
-by-fields scans on a cold context, each iterating the dict object it published
-itself, meet an unbuildable class.  The first `local_names_match` evicts it from
-the *currently published* object; the second scan still sees it in its own
-object, `local_names_match` tries to evict it again and `list.remove` raises
-`ValueError` — alone each scan simply finds nothing. -/
-theorem scan_eviction_counterexample : ¬ ConcurrentSafe badU w1 State.init := by
+/-- (former finding C19-F3) two by-fields scans on a cold context, each iterating
+the dict object it published itself, meet an unbuildable class: the second
+eviction used to raise `ValueError` from `list.remove`; it is suppressed now and
+both scans answer as alone. -/
+theorem scan_eviction_repaired :
+    (drain badU w1 (runSched badU w1 (Sys.start State.init [.scan ["x".toList], .scan ["x".toList]])
+      [1, 0, 0, 0, 0, 1, 1, 1, 1, 0])).results = [some (.gotType none), some (.gotType none)] ∧
+    Prog.alone badU w1 (.scan ["x".toList]) = .gotType none := by
+  decide
+
+/-- **why `scanSafe` is still a hypothesis** (C14-F3 seen concurrently): a scan
+evicts the unbuildable class from the published index, a lookup by name that
+runs after it no longer finds the class it finds alone. -/
+theorem scan_eviction_lookup_counterexample : ¬ ConcurrentSafe badU w1 State.init := by
   intro h
-  have := h [.scan ["x".toList], .scan ["x".toList]] [1, 0, 0, 0, 0, 1, 1, 1, 1, 0]
-    ⟨.scan ["x".toList], .done (.raised .value)⟩ (by decide) (.raised .value) rfl
+  have := h [.lookup .types "{urn:a}T".toList, .scan ["x".toList]] [1, 1, 1, 1, 1, 1, 0, 0, 0]
+    ⟨.lookup .types "{urn:a}T".toList, .done (.gotTypes [])⟩ (by decide) (.gotTypes []) rfl
   revert this
   decide
 
 /-- without `reset()` and without scans the two older theorems apply at once -/
 theorem concurrent_safe_partial (U : Universe) (w : World) (progs : List Prog) (schedule : List Nat)
-    (hnr : noReset progs) (hns : noScan progs) (hc : consistent U (progUses progs)) :
+    (hnr : noReset progs) (hns : noScan progs) :
     ∀ th ∈ (runSched U w (Sys.start State.init progs) schedule).threads,
       ∀ o, th.st = .done o → o = Prog.alone U w th.prog := by
   intro th hth o hs
   cases hp : th.prog with
-  | build c p => exact build_race_benign U w progs schedule hnr hns hc th hth c p o hp hs
+  | build c p => exact build_race_benign U w progs schedule hnr hns th hth c p o hp hs
   | lookup k q => exact xsi_lookup_linearizable_cold U w progs schedule hnr hns th hth k q o hp hs
   | scan names =>
     have hI := (runSched_lin w schedule _
@@ -317,8 +315,8 @@ theorem thread_progress (U : Universe) (w : World) (s : CState) (st : TState) (m
     split
     · simp [TState.remaining]
     · split <;> simp [TState.remaining]
-  | bWrite c m' => simp [stepT, TState.remaining]
-  | bRead c => simp only [stepT]; split <;> simp [TState.remaining]
+  | bWrite c p m' => simp [stepT, TState.remaining]
+  | bRead c p => simp only [stepT]; split <;> simp [TState.remaining]
   | xCheck g =>
     simp only [stepT, afterLocal]
     split
